@@ -75,6 +75,8 @@ class RichGen:
     def _grammar(self, *, annotation: bool = False) -> str:
         for _ in range(30):
             tree = self.eg.expr(self.rng.randint(1, self.depth))
+            if any(isinstance(n, ast.Await) for n in ast.walk(tree)):
+                continue  # not in _node_map: the visitor stores None for the whole slot (C03's business, and it breaks loading)
             if annotation and self.flavour == "importable" and any(
                     isinstance(n, (ast.Yield, ast.YieldFrom, ast.Await, ast.NamedExpr)) for n in ast.walk(tree)):
                 continue  # CPython refuses these inside (postponed) annotations
@@ -192,7 +194,7 @@ class RichGen:
         r = self.rng
         name = name or self.fresh("f")
         pool = ["deco", "deco_args(1, k=2)", "functools.cache", "functools.lru_cache(maxsize=None)", "typing.final", "deco_args()"]
-        src = self.decorators(ind, pool) if not extra_decorators or r.random() < 0.3 else ""
+        src = self.decorators(ind, pool) if not extra_decorators or (r.random() < 0.3 and "classmethod" not in extra_decorators) else ""
         for d in extra_decorators:
             src += f"{ind}@{d}\n"
         pre = "async " if r.random() < 0.15 else ""
@@ -282,12 +284,17 @@ class RichGen:
             body += (f"{body_ind}def __init__(self, a: {self.ann()} = None):\n{body_ind}    self.inst_a = a\n"
                      f"{body_ind}    self.inst_b: {self.ann()} = {self.value()}\n{body_ind}    \"\"\"Doc of inst_b.\"\"\"\n")
             self.features.add("instance-attribute")
+        if r.random() < 0.06:
+            # a member map with the key `kind` / `cls` (the decoder dispatches on these keys)
+            body += f"{body_ind}{r.choice(['kind', 'cls'])} = 1\n"
+            self.features.add("member-named-kind-or-cls")
         if level == 0 and r.random() < 0.4:
             # a nested class named like an expression name: resolution of `T` / `U` now depends on the scope
             body += self.klass(body_ind, r.choice(["T", "U", "Inner"]), level=1)
             self.features.add("nested-class")
         if r.random() < 0.2:
-            body += f"{body_ind}from os import sep as class_level_alias\n"
+            # (an alias that cannot be resolved inside a class body makes resolve_aliases itself raise: not this property)
+            body += f"{body_ind}from {self.name}.sub.leaf import LEAF_VALUE as class_level_alias\n"
         if not body:
             body = f"{body_ind}pass\n"
         self.features.add("class")
